@@ -25,7 +25,7 @@ def code_constants(sbs, variant="os"):
         env = {}
         if sb:
             env["IPC_VERIF_SENDBUF"] = sb
-        p = run_harness(variant, ["consts", str(sb or 212992)] + [str(x) for x in (4096, 8192, 65536, 212992, 100000)], env=env)
+        p = run_harness(variant, ["consts", str(sb or 212992)] + [str(x) for x in (4096, 8192, 65536, 212992, 100000, 4097, 4098, 4099, 4100, 4101, 4102, 4103, 10001, 33333)], env=env)
         if p.returncode != 0:
             raise ToolError("harness consts failed: " + p.stderr[-2000:])
         rows = json.loads(p.stdout)
